@@ -87,6 +87,15 @@ func cmdC07(r *RNG, n int, e *Emitter, args []string) {
 		rl, rt := float64(r.Range(0, 20))/qs+0.5/qs, float64(r.Range(0, 20))/qs
 		rr, rb := rl+float64(r.Range(5, 60))/qs+0.5/qs, rt+float64(r.Range(5, 60))/qs
 		rectD := clip.NewRectD(rl, rt, rr, rb)
+		if r.Intn(4) == 0 {
+			// a segment hugging the rectangle's top (or bottom) side from outside by less than half a quantum: outside the
+			// float rectangle, on the boundary of the quantised one
+			y := rt - 0.4/qs
+			if r.Bool() {
+				y = rb + 0.4/qs
+			}
+			s = append(s, clip.PathD{{X: rl + 1/qs, Y: y}, {X: rr - 1/qs, Y: y}})
+		}
 		// "rectangle bounds are quantised like path coordinates"
 		qr := clip.ScalePathDToPath64(clip.PathD{{X: rl, Y: rt}, {X: rr, Y: rb}}, scale)
 		rect64 := clip.NewRect64(qr[0].X, qr[0].Y, qr[1].X, qr[1].Y)
